@@ -21,9 +21,10 @@ TARGETS = ["http://b.com/x", "https://b.com", "http://", "https://", "b.com/x", 
 DEPTHS = [1, 2, 3, 4]
 ENCS = ["matching", "raw", "one-more"]
 TRAILS = ["", "&z=1", "#frag", "&u=http://c.com"]
+LEADS = ["", " ", "\t", "\xa0", "\u3000", "\x85"]  # white space in front of the whole url (ASCII and not)
 
 SLOTS = [("carrier", CARRIERS), ("position", POSITIONS), ("key", KEYS), ("target", TARGETS), ("depth", DEPTHS),
-         ("enc", ENCS), ("trail", TRAILS)]
+         ("enc", ENCS), ("trail", TRAILS), ("lead", LEADS)]
 GRID = grid.Grid("redirect-grammar", SLOTS)
 
 
@@ -77,7 +78,7 @@ def build(case):
         t = "http://c%d.com/r?url=" % i + enc(t, 1)
         levels += 1
     times = {"matching": 1, "raw": 0, "one-more": 2}[e]
-    return place(carrier, position, key, enc(t, times), trail)
+    return g("lead", "") + place(carrier, position, key, enc(t, times), trail)
 
 
 import re
@@ -93,13 +94,19 @@ def candidates(u):
         for j in ends:
             if j > i:
                 d = std_unquote(u[i:j])
-                out.add(d)
+                if d[:8].lower().startswith(("http://", "https://")):
+                    out.add(d)  # an absolute target as it stands; a relative one only joined to the input
                 out.add("https://" + d)
                 try:
-                    out.add(std_urljoin(u, d))
-                    if not PROTO_RE.match(u):
+                    # joined to the input itself (white space in front of a url is not part of it; it may be kept in front)
+                    su = u.strip()
+                    lead = u[: len(u) - len(u.lstrip())]
+                    j1 = std_urljoin(su, d)
+                    out.update((j1, lead + j1))
+                    if not PROTO_RE.match(su):
                         # a url given without protocol is joined as if it had one, and stays without
-                        out.add(std_urljoin("http://" + u, d)[7:])
+                        j2 = std_urljoin("http://" + su, d)[7:]
+                        out.update((j2, lead + j2))
                 except ValueError:
                     pass
     for i in (k + 1 for k, c in enumerate(u) if c == "/"):
@@ -155,6 +162,47 @@ def evaluate(case):
     return evaluate_url(build(case))
 
 
+# deep but finite nesting: the recursive call must still return what the iterated one-step function converges to
+DEEP_KINDS = ["url-chain", "rel-chain", "marfeel-chain", "amp-chain", "mixed-chain"]
+DEEP_GRID = grid.Grid("deep-chains", [("deep", DEEP_KINDS), ("n", [2, 40, 450, 1200])])
+
+
+def build_deep(kind, n):
+    if kind == "url-chain":
+        return "https://a.com/r?url=" * n + "https://final.com/"
+    if kind == "rel-chain":
+        return "http://a.com/" + "?u=/" * n
+    if kind == "marfeel-chain":
+        return "bc.marfeel.com/" * n + "x"
+    if kind == "amp-chain":
+        return "http://" + "x.cdn.ampproject.org/c/s/" * n + "final.com/"
+    return "http://a.com/login?next=/" + "r?url=https://bc.marfeel.com/c.com/" * n + "end"
+
+
+def evaluate_deep(case):
+    ir = importlib.import_module("ural.infer_redirection").infer_redirection
+    u = build_deep(case.get("deep", DEEP_KINDS[0]), case.get("n", 2))
+    fails = []
+    cur, hops = u, 0
+    while hops <= 3 * case.get("n", 2) + 8:
+        r = core.guarded(ir, cur, recursive=False)
+        if r[0] != "ok" or not isinstance(r[1], str):
+            fails.append((PROP + ".terminates", "one step returns a string", {"after hops": hops, "got": list(r)[:2]}))
+            return fails, [], None
+        if r[1] == cur:
+            break
+        cur, hops = r[1], hops + 1
+    else:
+        fails.append((PROP + ".terminates", "fixed point", {"hops": hops}))
+        return fails, [], None
+    rr = core.guarded(ir, u)
+    if rr[0] != "ok" or not isinstance(rr[1], str):
+        fails.append((PROP + ".terminates", {"recursive call returns the string the one-step function converges to": cur[:80], "hops": hops}, list(rr)[:2]))
+    elif rr[1] != cur:
+        fails.append((PROP + ".fixpoint", cur[:200], rr[1][:200]))
+    return fails, ["redirects", "multi-hop"], (cur[:50], hops)
+
+
 PURE_URLS = ["http://a.com/p?url=http%3A%2F%2Fb.com%2Fx", "http://a.com/login?next=/home", "a.com/login?next=/home", "http://youtube.com/redirect?q=b.com%2Fa",
              "http://x.cdn.ampproject.org/c/s/b.com/x", "http://a.com/p?q=1", "http://a.com&u=/x", "http://a.com/p?u=http%3A%2F%2Fc.com%2Fr%3Furl%3Dhttp%253A%252F%252Fb.com",
              "https://bc.marfeel.com/b.com/x", "http://a.com/p"]
@@ -176,7 +224,17 @@ def judge(w):
         return core.judge_history(PROP + ".pure", w, pure_thunk)
     if "url" in w:
         return evaluate_url(w["url"])[0]
+    if w.get("kind") == "deep":
+        return evaluate_deep(dict(DEEP_GRID.default_case(), **w["case"]))[0]
     return evaluate(w["case"])[0]
+
+
+def simplify(w):
+    if "history" in w or "url" in w:
+        return []
+    if w.get("kind") == "deep":
+        return [dict(x, kind="deep") for x in DEEP_GRID.wsimplify(w)]
+    return GRID.wsimplify(w)
 
 
 def fails_fn(clause, w):
@@ -195,7 +253,10 @@ def run(chk):
         "the orbit of the real one-step infer_redirection(recursive=False) is followed to a fixed point / cycle / horizon 16 and "
         "the recursive call is run under a recursion limit of 400 and a 2 s watchdog. distinct_nontrivial = distinct (end, hops)."
     )
-    failures, tags = grid.run(chk, GRID, d, evaluate, shrink=(GRID.wit, GRID.wsimplify, fails_fn))
+    failures, tags = grid.run(chk, GRID, d, evaluate, shrink=(GRID.wit, simplify, fails_fn))
+    chk.rule.append("Deep chains: 5 kinds of nesting x 2 / 40 / 450 / 1200 levels (no escaping needed: a hint value runs to the end of the url): "
+                    "the recursive call must return the fixed point of the iterated one-step function.")
+    grid.run(chk, DEEP_GRID, None, evaluate_deep, shrink=(lambda case: dict(DEEP_GRID.wit(case), kind="deep"), simplify, fails_fn))
     chk.rule.append("H2: every ordered pair of %d infer_redirection calls from a reset module state." % len(pure_labels()))
     core.explore_pairs(chk, PROP + ".pure", [(l, pure_thunk(l)) for l in pure_labels()])
     n = chk.cov["states"]
